@@ -218,7 +218,7 @@ func (l *Lexer) scanAccount() Token {
 		}
 
 		l.pos += size
-		l.column++
+		l.column += utf16Width(r)
 		lastNonSpace = l.pos
 	}
 
@@ -432,10 +432,18 @@ func (l *Lexer) peekRune() rune {
 
 func (l *Lexer) advance() {
 	if l.pos < len(l.input) {
-		_, size := utf8.DecodeRuneInString(l.input[l.pos:])
+		r, size := utf8.DecodeRuneInString(l.input[l.pos:])
 		l.pos += size
-		l.column++
+		l.column += utf16Width(r)
 	}
+}
+
+// utf16Width returns the number of UTF-16 code units of r (LSP columns count UTF-16 units).
+func utf16Width(r rune) int {
+	if r >= 0x10000 {
+		return 2
+	}
+	return 1
 }
 
 func (l *Lexer) skipSpaces() {
